@@ -16,7 +16,7 @@ def compile_cases(build, work, cases, extra_args=(), out_name="out.ttf"):
         d = os.path.join(work, name)
         os.makedirs(d, exist_ok=True)
         gen.write_case(prog, d)
-        rc, log, wall = common.run_grc(build, d, ["-q"] + list(extra_args) + ["p.gdl", "in.ttf", out_name])
+        rc, log, wall = common.run_grc(build, d, ["-q"] + list(extra_args) + list(getattr(prog, "compile_opts", ())) + ["p.gdl", "in.ttf", out_name])
         err = ""
         ep = os.path.join(d, "gdlerr.txt")
         if os.path.exists(ep):
